@@ -19,7 +19,7 @@ CHECKS = {
         technique="runtime monitor + crash injection at every target request prefix, fresh tool instance restarted per distinct target state, logs of all runs checked for loss/duplication/wrong DB",
         text="For each base run every prefix of the requests the target executed is a crash point (exhaustive per observed request sequence, grouped by "
              "resulting target state); a fresh RedisOutput performs the real start-up bookkeeping + StartPoint + Send from the returned offset; "
-             "second/third crashes on a PRNG subset. Oracles: resume position absorbed, no skipped write, right DB, exactly-once in transactional mode. Also: orderly stops (context cancellation) while the source is silent at a PRNG-chosen command boundary, same-instance re-runs after a lost target connection (reply lost, effect not), same-instance second snapshot; a third of the cases switch databases inside transactions, a third blacklist one source database.",
+             "second/third crashes on a PRNG subset. Oracles: resume position absorbed, no skipped write, right DB, exactly-once in transactional mode. Also: orderly stops (context cancellation, or - one schedule in three - the stream ending by itself with EOF) while the source is silent at a PRNG-chosen command boundary, same-instance re-runs after a lost target connection (reply lost, effect not), same-instance second snapshot; a third of the cases switch databases inside transactions, a third blacklist one source database.",
         design="DESIGN.md §3 C02", note=TRUST + "; crash = prefix of executed requests (tool and target die together or in-flight requests are lost)"),
     "C03": dict(level="exploration", engine="fullsync+rdbx",
         technique="runtime oracle: snapshots built by an independent RDB codec are replayed by the real Send into a Redis double; final keyspace, expiries and every RESTORE payload compared with the dataset; worker processes with hang/memory guards",
@@ -36,7 +36,7 @@ CHECKS = {
     "C08": dict(level="fault_enumeration", engine="prf+child",
         technique="crash-image sampling: a live writer child process is SIGSTOPped at aimed/PRNG instants, its directory copied and reopened by a fresh StoreChannel; served bytes compared with PRF(offset); closed segments altered and reopened with verifyCrc",
         text="Hundreds (quick) / thousands (thorough) of frozen directory images over all write phases incl. kill-and-restart chains and mid-removal images, classified by "
-             "structural signature; instants are sampled, not exhaustive; required phases enforced by count. Hostile chains: writes refused through RLIMIT_FSIZE in the child (first chunk / mid-snapshot / last chunk / log segment, partial writes), Close at the last chunk; the child sweeps its own live cache after a refused log write and after restart + collector with a lagging reader (valid offsets readable, PRF bytes, never beyond Right(), stall by logical quiescence).",
+             "structural signature; instants are sampled, not exhaustive; required phases enforced by count. A third of the chains start just below a power of ten (segment names of different width); a reported range must not end before the newest data segment of the image. Hostile chains: writes refused through RLIMIT_FSIZE in the child (first chunk / mid-snapshot / last chunk / log segment, partial writes), Close at the last chunk; the child sweeps its own live cache after a refused log write and after restart + collector with a lagging reader (valid offsets readable, PRF bytes, never beyond Right(), stall by logical quiescence).",
         design="DESIGN.md §3 C08", note="a stopped process performs no syscalls, so the copy is an exact kill-point image of the page cache; fsync ordering of a power loss is not modelled"),
     "C20": dict(level="exploration", engine="fullsync+rdbx",
         technique="runtime oracle as C03 with a pre-populated target double under each key-exists policy; existing keys compared bit-for-bit before/after and against the request log",
@@ -47,7 +47,7 @@ CHECKS = {
         technique="runtime monitor over the real RedisInput/cache/RedisOutput pipeline against a source double implementing Redis' PSYNC admission rule; target log (history-tagged ids), PSYNC request log and cache ranges checked after each reconnect",
         text="Enumerated product of source mutation (same id, failover with switch offset, new id, trimmed backlog) x stored resume position class x cache contents x disk/memory cache "
              "x restart/in-loop reconnect; states the tool cannot reach naturally are constructed and marked. Oracle: continuation exactly from the stored position on the current history, "
-             "or a complete snapshot followed by the stream from its offset; offset convention and CONTINUE/FULLRESYNC answers checked. Faults: source cuts the replica connection inside the snapshot or the stream; target answers the bookkeeping writes of a reconnect with errors (reset after FULLRESYNC, run-id re-key) until a logical event; source refuses the first 1-3 PSYNCs of a reconnect with NOMASTERLINK/LOADING (every request, refused or granted, is held to the offset convention).",
+             "or a complete snapshot followed by the stream from its offset; offset convention and CONTINUE/FULLRESYNC answers checked. Faults: source cuts the replica connection inside the snapshot or the stream; target answers the bookkeeping writes of a reconnect with errors (reset after FULLRESYNC, run-id re-key) until a logical event; source refuses the first 1-3 PSYNCs of a reconnect with NOMASTERLINK/LOADING (every request, refused or granted, is held to the offset convention); 2-4 MiB snapshot from a busy source whose stream bytes follow the payload at once, with a byte-for-byte read-back of the cached log.",
         design="DESIGN.md §3 C06", note="internal/fakeredis role_source transcribes masterTryPartialResynchronization; " + TRUST),
     "C17": dict(level="fault_enumeration", engine="fakeredis+hooks",
         technique="crash sweep over every request prefix of each bookkeeping maintenance operation (real start-up bookkeeping and GC body through build-tag hooks); next start with the new configuration must find a position >= the one before, in the same DB",
@@ -57,7 +57,7 @@ CHECKS = {
     "C19": dict(level="exploration", engine="fakeredis cluster role",
         technique="runtime monitor: globally ordered per-node effect logs of a multi-node cluster double (routing by independent HASH_SLOT, MIGRATING/IMPORTING/ASK/MOVED/TRYAGAIN semantics) under scripted migration schedules; per-key segment oracle + resume-position clause",
         text="Real RedisOutput with a cluster client against 3-5 node doubles; schedules: none, MOVED between/mid batch, ASK windows with existing/missing keys, back-and-forth, node added; "
-             "blocking/pipelined, transactional/non-transactional; slot-table refresh released between two Puts of one batch; two connection-fault schedules (reset mid-batch, connection lost before the first reply); writes with a legal null-bulk reply in every mode. Two known findings (non-atomic node pipelines: the reported flavour, and the silent bounce inversion of the blocking non-transactional sender) are listed in known_findings.json.",
+             "blocking/pipelined, transactional/non-transactional; slot-table refresh released between two Puts of one batch; two connection-fault schedules (reset mid-batch, connection lost before the first reply); writes with a legal null-bulk reply in every mode; schedule abandoned-node-worker (one node resets, another stalls until the restarted run has overtaken it). Two known findings (non-atomic node pipelines: the reported flavour, and the silent bounce inversion of the blocking non-transactional sender) are listed in known_findings.json.",
         design="DESIGN.md §3 C19", note="the double enforces 'executed by the owner'; slots from internal/ref.HashSlot; " + TRUST),
     "C05": dict(level="exploration", engine="chanmodel",
         technique="runtime monitor at the Channel boundary of both cache backends against a byte-by-offset model (PRF bytes identify their origin); sequential generated op histories + concurrent writer/readers/collector/pollers under the race detector with interval-bound checks",
